@@ -88,6 +88,11 @@ func declMatrix() []declCase {
 	add("entity minimal", "entity Foo {\n  key fooId key:id62 {\n    primary = true\n  }\n  status ACTIVE\n}\n")
 	add("entity readme", "entity Foo {\n  | Foo is lorem ipsum\n\n  key fooId key:id62 {\n    primary = true\n  }\n\n  data name string\n\n  status ACTIVE\n  status INACTIVE\n\n  event Create {\n    field name string\n  }\n\n  event Archive {\n  }\n}\n")
 	add("entity tenant and summary", "entity Foo {\n  key fooId key:id62 {\n    primary = true\n  }\n  key accountId key:id62 {\n    primary = false\n    tenant = \"account\"\n  }\n  data name string\n  status ACTIVE\n  event Create {\n    field name string\n  }\n  summary {\n    field name string\n  }\n}\n")
+	// entity key classifications (sourcedef EntityKey: primary / shardKey / tenant): the generated query service takes its
+	// URL parameters and its request fields from the same classification
+	add("entity shard key that is not primary", "entity Foo {\n  key fooId key:id62 {\n    primary = true\n  }\n  key tenantId key:id62 {\n    shardKey = true\n    tenant = \"tenant\"\n  }\n  data name string\n  status ACTIVE\n  event Create {\n    field name string\n  }\n}\n")
+	add("entity shard key that is also primary", "entity Foo {\n  key fooId key:id62 {\n    primary = true\n  }\n  key regionId key:id62 {\n    primary = true\n    shardKey = true\n  }\n  data name string\n  status ACTIVE\n  event Create {\n    field name string\n  }\n}\n")
+	add("entity primary, shard, tenant and plain keys", "entity Foo {\n  key fooId key:id62 {\n    primary = true\n  }\n  key shardId key:id62 {\n    shardKey = true\n  }\n  key accountId key:id62 {\n    tenant = \"account\"\n  }\n  key otherId key:id62\n  key createdAt timestamp\n  data name string\n  status ACTIVE\n  status INACTIVE\n  event Create {\n    field name string\n  }\n  query {\n    eventsInGet = true\n  }\n}\n")
 	add("entity query listRequest", "entity Foo {\n  key fooId key:id62 {\n    primary = true\n  }\n  data name string\n  status ACTIVE\n  event Create {\n    field name string\n  }\n  query.listRequest.defaultSort = [\"name\"]\n}\n")
 	// services / topics whose generated sub-package file imports the main file of the same source (request, response and
 	// message fields referring to an object, a oneof and an enum declared next to the service): several output files
